@@ -68,8 +68,8 @@ def split_top(s, sep=","):
 
 _fn_re = re.compile(r"^fn (.+?)\((.*)\) -> (.+?) \{$")
 _fn_unit_re = re.compile(r"^fn (.+?)\((.*)\) \{$")
-_const_re = re.compile(r"^(const|static|static mut) (.+?): (.+?) = \{$")
-_const_inline_re = re.compile(r"^(const|static) (.+?): (.+?) = (const .+);$")
+_const_re = re.compile(r"^(const|static|static mut) (.+): (.+?) = \{$")
+_const_inline_re = re.compile(r"^(const|static) (.+): (.+?) = (const .+);$")
 _promoted_re = re.compile(r"^promoted\[(\d+)\] in (.+?): (.+?) = \{$")
 _alloc_re = re.compile(r"^(alloc\d+) \((?:static: ([^,]+), )?size: (\d+), align: \d+\) \{")
 _let_re = re.compile(r"^\s*let (?:mut )?(_\d+): (.+);$")
